@@ -4,7 +4,7 @@
 From Coq Require Import List ZArith Bool Sorted.
 From Coq.Strings Require Import Byte.
 Import ListNotations.
-From SV Require Import Text C12_Model C12_Lemmas C12_Gap C12_Modes.
+From SV Require Import Text C12_Model C12_Lemmas C12_Gap C12_Modes C12_GapSet.
 Local Open Scope Z_scope.
 
 (* P0, every mode (need_start always/once/never x need_stop), every sequence, every rf and minlen -- no hypothesis:
@@ -292,3 +292,126 @@ Example C12_witness_basket :
   fmap_res (filter_len OpGt 9) (basket_find_orfs (bs "ORF"%bs) RFfwd NSNever false 0 [(bs "a"%bs, bs "ATGAAATAAC"%bs)]) =
   FOk [].
 Proof. exact (conj eq_refl (conj eq_refl eq_refl)). Qed.
+
+(* ---- round 7: the gap option as a SET of characters, custom codon sets, is_orf, every rf form ---------------------------- *)
+(* the gap set is a renaming of the gap symbol. find_orfs_x g (the code with gap=<g>: regex class [g]*, 'nt in gap',
+   rstrip(gap)) on any text equals find_orfs (gap='-') on the text with every character of g rewritten to '-' (and a '-'
+   that is no gap character rewritten to '#', a residue of no codon) -- for every gap set over the self-complementary
+   symbols GAP_SAFE = ".-_~*N" (the empty set is gap=None), every rf, mode and minlen. So every theorem above speaks about
+   every gap option. *)
+Theorem C12_gapset_transfer : forall g rf ns need_stop minlen s, gap_safe g = true ->
+  find_orfs_x g START_WORDS STOP_WORDS rf ns need_stop minlen s = find_orfs rf ns need_stop minlen (to_dash g s).
+Proof. exact gapset_transfer. Qed.
+Print Assumptions C12_gapset_transfer.
+
+(* P2 for ANY gap set: the ORFs of the sequence with the gap characters removed are exactly the ORFs of the gapped sequence,
+   same order / strand / rf, under p -> number of non-gap characters before column p; every mode, both strands *)
+Theorem C12_gap_bijection_any_gap : forall g rf ns need_stop s, gap_safe g = true ->
+  exists l, find_orfs_x g START_WORDS STOP_WORDS rf ns need_stop 0 s = ROk l /\
+            find_orfs_x g START_WORDS STOP_WORDS rf ns need_stop 0 (degap_g g s) =
+            ROk (map (fun o => mkorf (rbZ_g g s (o_start o)) (rbZ_g g s (o_stop o)) (o_plus o) (o_rf o)) l).
+Proof. exact gap_bijection_g. Qed.
+Print Assumptions C12_gap_bijection_any_gap.
+
+(* CUSTOM codon sets (find_orfs(start='ATG|GTG|TTG', stop='TAA')): for any non-empty words over letters that are no gap
+   characters, any safe gap set, every rf / mode / minlen, the result is, frame by frame in the requested order, the
+   specification of the mode over the frame's custom start positions and stop end positions (mirrored, minlen-filtered) *)
+Theorem C12_custom_modes_spec : forall g sw pw rf ns need_stop minlen s,
+  gap_safe g = true -> words_ok g sw = true -> words_ok g pw = true ->
+  find_orfs_x g sw pw rf ns need_stop minlen s =
+  ROk (concat (map (fun f => filter (fun o => o_stop o - o_start o >=? minlen)
+                               (map (mk_orf f (Z.of_nat (length s))) (spec_x g sw pw ns need_stop s f)))
+                   (frames_of rf))).
+Proof. exact custom_modes_spec. Qed.
+Print Assumptions C12_custom_modes_spec.
+
+Theorem C12_custom_codon_lists : forall g sw pw s f, gap_safe g = true -> words_ok g sw = true -> words_ok g pw = true ->
+  StronglySorted Z.lt (starts_x g sw s f) /\ StronglySorted Z.lt (stops_x g pw s f) /\
+  Forall (fun a => 0 <= a < Z.of_nat (length s)) (starts_x g sw s f) /\
+  Forall (fun e => 0 < e <= Z.of_nat (length s)) (stops_x g pw s f).
+Proof. exact custom_codon_lists. Qed.
+Print Assumptions C12_custom_codon_lists.
+
+(* "in every mode the reported intervals lie inside the sequence, respect minlen", strand and rf identify a requested frame:
+   all need_start x need_stop modes, custom codon sets, any gap set *)
+Theorem C12_custom_invariants : forall g sw pw rf ns need_stop minlen s,
+  gap_safe g = true -> words_ok g sw = true -> words_ok g pw = true ->
+  exists l, find_orfs_x g sw pw rf ns need_stop minlen s = ROk l /\
+    Forall (fun o => 0 <= o_start o /\ o_start o < o_stop o /\ o_stop o <= Z.of_nat (length s) /\
+                     minlen <= o_stop o - o_start o /\ In (o_rf o) (frames_of rf) /\ o_plus o = (o_rf o >=? 0)) l.
+Proof. exact custom_invariants. Qed.
+Print Assumptions C12_custom_invariants.
+
+(* default settings with custom codon sets: the list of a frame holds exactly the (a, e) satisfying the declarative
+   predicate is_orf_x, each once, in increasing order *)
+Theorem C12_custom_is_orf : forall g sw pw s f, gap_safe g = true -> words_ok g sw = true -> words_ok g pw = true ->
+  (forall a e, In (a, e) (spec_x g sw pw NSAlways true s f) <-> is_orf_x g sw pw s f a e) /\
+  NoDup (spec_x g sw pw NSAlways true s f) /\
+  StronglySorted (fun p q => snd p <= fst q) (spec_x g sw pw NSAlways true s f).
+Proof. exact custom_is_orf. Qed.
+Print Assumptions C12_custom_is_orf.
+
+(* THE DEFAULT-SETTINGS CLAUSE against the independent predicate is_orf (text, frame, a, e), both strands, ANY requested
+   frame list (names, ints, tuples): the result is the concatenation, in the requested frame order, of the mirrored lists
+   default_list s f, and for every frame f: (soundness, completeness) (a, e) is listed iff is_orf s f a e -- a is an
+   in-frame start, e the end of an in-frame stop after it, no in-frame stop ends in between, every earlier in-frame start is
+   cut off by an in-frame stop; (exactly once) the list has no duplicates; (order) increasing, each ORF ends before the next
+   begins. A frame without start codon has an empty list (no a with In a (frame_starts s f)). *)
+Theorem C12_default_is_orf : forall rf s,
+  find_orfs rf NSAlways true 0 s =
+    ROk (concat (map (fun f => map (mk_orf f (Z.of_nat (length s))) (default_list s f)) (frames_of rf))) /\
+  forall f, (forall a e, In (a, e) (default_list s f) <-> is_orf s f a e) /\
+            NoDup (default_list s f) /\
+            StronglySorted (fun p q => snd p <= fst q) (default_list s f).
+Proof. exact default_is_orf. Qed.
+Print Assumptions C12_default_is_orf.
+
+(* ... and every such ORF begins after a number of residues congruent to the frame offset, holds a multiple of three
+   residues (gapped or not, either strand) and lies inside the sequence *)
+Theorem C12_is_orf_residues : forall s f a e, is_orf s f a e ->
+  let t := strand_str s f in
+  Z.of_nat (rb t (Z.to_nat a)) mod 3 = frame_key f /\
+  (Z.of_nat (rb t (Z.to_nat e)) - Z.of_nat (rb t (Z.to_nat a))) mod 3 = 0 /\
+  0 <= a /\ a < e /\ e <= Z.of_nat (length s).
+Proof. exact is_orf_residues. Qed.
+Print Assumptions C12_is_orf_residues.
+
+(* every form of rf: decision table (error class or frame list) *)
+Theorem C12_rf_forms : forall gap start stop rf ns need_stop minlen s,
+  find_orfs_any gap start stop rf ns need_stop minlen s =
+  match rf with
+  | RAbadstr => XErr (bs "AssertionError"%bs)
+  | RAnpint _ | RAfloat | RAnone => XErr (bs "TypeError"%bs)
+  | RAspec r => xres (orfs_frames_x (gap_set gap) (pat_words start) (pat_words stop) ns need_stop minlen s
+                        (match r with RFfwd => [0; 1; 2] | RFbwd => [-1; -2; -3] | RFboth => [0; 1; 2; -1; -2; -3]
+                                    | RFint z => [z] | RFtuple l => l end))
+  end.
+Proof. exact rf_forms. Qed.
+Print Assumptions C12_rf_forms.
+
+(* a frame outside -3..2 holds no codon: nothing when a start codon is needed; with need_start='never' the chain from its k-th
+   residue over an empty stop list (one ORF to the end of the sequence for need_stop=False, if there are that many residues) *)
+Theorem C12_out_of_range_frame : forall ns need_stop minlen s f, frame_ok f = false ->
+  frame_orfs ns need_stop minlen s f =
+  match ns with
+  | NSNever => ROk (filter (fun o => o_stop o - o_start o >=? minlen)
+                      (map (mk_orf f (Z.of_nat (length s)))
+                           (spec_chain need_stop (frame_last s f) (Z.of_nat (length s)) (frame_fs s f) [])))
+  | _ => ROk []
+  end.
+Proof. exact out_of_range_frame. Qed.
+Print Assumptions C12_out_of_range_frame.
+
+Example C12_witness_gapset :
+  gap_safe (bs ".-"%bs) = true /\ words_ok (bs ".-"%bs) (pat_words (bs "ATG|GTG|TTG"%bs)) = true /\
+  words_ok (bs ".-"%bs) (pat_words (bs "TAA"%bs)) = true /\
+  find_orfs_any (Some (bs ".-"%bs)) (bs "ATG|GTG|TTG"%bs) (bs "TAA"%bs) (RAspec RFboth) NSAlways true 0 (bs "CCG.TGA-AATAAC"%bs) =
+    XOk [mkorf 2 13 true 2] /\
+  find_orfs_x (bs "."%bs) START_WORDS STOP_WORDS RFfwd NSAlways true 0 (bs "A.TGCC-TAA"%bs) = ROk [mkorf 0 10 true 0] /\
+  find_orfs_x (bs "."%bs) START_WORDS STOP_WORDS RFfwd NSAlways true 0 (bs "A.TGCCCTA.A"%bs) = ROk [mkorf 0 11 true 0] /\
+  to_dash (bs "."%bs) (bs "A.TGCC-TAA"%bs) = bs "A-TGCC#TAA"%bs /\
+  find_orfs_any None (bs "start"%bs) (bs "stop"%bs) (RAnpint 0) NSAlways true 0 (bs "ATGTAA"%bs) = XErr (bs "TypeError"%bs) /\
+  find_orfs (RFint 5) NSNever false 0 (bs "CCATGAAATAAC"%bs) = ROk [mkorf 5 12 true 5] /\
+  is_orf (bs "AUGCCCTAAUUAGGGCAU"%bs) 0 0 9.
+Proof. exact (conj eq_refl (conj eq_refl (conj eq_refl (conj eq_refl (conj eq_refl (conj eq_refl (conj eq_refl (conj eq_refl
+              (conj eq_refl is_orf_witness))))))))). Qed.
